@@ -43,7 +43,7 @@ def gen(rng):
     steps.append(['f', home + '/tg/linked_dir/inside', 'in', 0o644, 1_111_111_112])
     for i in range(n):
         tdir, top, _u = rng.choice(locs)
-        base = (home + '/w') if top is None else (top + '/docs')
+        base = (home + '/w') if top is None else (L['work'][top])
         nm = 'ent%d' % i
         loc = base + '/' + nm
         pv = TG.pct(loc if top is None else loc[len(top) + 1:])
